@@ -29,6 +29,13 @@ class HarnessError(Exception):
 # --------------------------------------------------------------------------- context
 
 
+def _hard_check(solver, timeout_ms):
+    try:
+        return solver.check()
+    except z3.Z3Exception:
+        return z3.unknown
+
+
 class Ctx:
     def __init__(self, prefix=(), assumes=(), prune_timeout_ms=3000, kmax=3):
         self.prefix = list(prefix)
@@ -88,7 +95,7 @@ class Ctx:
         t0 = time.time()
         s.push()
         s.add(t)
-        r = s.check()
+        r = _hard_check(s, self.prune_timeout_ms)
         s.pop()
         self.prune_s += time.time() - t0
         if r == z3.unknown:
